@@ -134,16 +134,7 @@ def in_fragment(spec):
     return True
 
 
-def _known_int_lookup(sub, spec, fail):
-    """F33: Lookup on a non-negative int constant prints as '0.a' (lexed as a float)."""
-    if not fail.kind.startswith("reparse-raised"):
-        return False
-    return any(s[0] == "Lookup" and isinstance(s[1], list) and s[1][0] == "Const"
-               and s[1][1] in ("int", "np.int64") and s[1][2] >= 0
-               for s in subspecs(spec))
-
-
-KNOWN = {"F33": _known_int_lookup}
+KNOWN = {}
 
 
 def check_tree(spec):
